@@ -582,6 +582,45 @@ def main(argv):
                                "witness": f["witness"], "note": "replay with ./check %s --replay %s" % (pid, rp)}, open(rp, "w"), indent=1)
                     real_violations.append(f)
 
+    # thorough tier: every attached concrete input whose oracle comes from the property itself (verdicts, exit status / OK /
+    # diagnostics agreement, LSP == check, same result in every encoding, cycle <=> P0010, protocol discipline) is also run
+    # on the real binary as a bounded stand-in, whatever the verifier said. Inputs that compare against rendered text or a
+    # stored baseline (echo, tokens, golden) stay what they are: replay material for failed obligations.
+    if tier == "thorough":
+        try:
+            import witness as _w2
+            binp2, _ = _w2.build_ironplcc()
+        except ImportError:
+            binp2 = None
+        if binp2:
+            unit_names = [r["unit"] for r in recs]
+            n_run = 0
+            n_fail = 0
+            for c in _w2.load_candidates():
+                if c["kind"] not in ("check", "cli", "lsp_vs_check", "lsp_protocol", "encodings", "graphs"):
+                    continue
+                if c.get("property") and pid not in c["property"]:
+                    continue
+                if not any(re.search(r"(^|[|(])" + re.escape(u) + "/", c["for"]) or re.match(c["for"], u + "/x") for u in unit_names):
+                    continue
+                rep, obs = _w2.run_candidate(c)
+                n_run += 1
+                if rep:
+                    n_fail += 1
+                    n = len(real_violations)
+                    rp = os.path.join(REPLAY, "%s-w%d.json" % (pid, n))
+                    f = {"obligation": "bounded/witness/%s" % hashlib.sha256(c.get("name", c["for"]).encode()).hexdigest()[:8], "kind": "bounded-stand-in", "item": None,
+                         "src": None, "clause": "%s: %s" % (c.get("name", ""), "; ".join(obs.get("mismatches", []))[:300]), "unit": "bounded",
+                         "message": "concrete input with an oracle from the property fails on the real binary",
+                         "witness": {"candidate": {k: v for k, v in c.items() if not k.startswith("_")}, "observation": obs, "how": "ironplcc built from /repo working tree"}, "replay": rp}
+                    json.dump({"property": pid, "obligation": f["obligation"], "kind": f["kind"], "function": None, "source": None, "clause": f["clause"],
+                               "verifier": "bounded check of the real binary (thorough tier: attached inputs with property oracles)", "verifier_message": f["message"],
+                               "verifier_output": "", "witness": f["witness"], "note": "replay with ./check %s --replay %s" % (pid, rp)}, open(rp, "w"), indent=1)
+                    if not any(x.get("witness") and x["witness"].get("candidate", {}).get("name") == c.get("name") for x in real_violations):
+                        real_violations.append(f)
+            bounded_results.append({"name": "attached inputs with oracles taken from the property (thorough tier)", "bound": "%d inputs" % n_run, "evaluations": n_run,
+                                    "failures": n_fail, "level": "bounded (not a proof; not counted among the obligations)"})
+
     for k in kani_results:
         if k["status"] != "successful":
             undecided.append("kani: assumed contract harness %s: %s" % (k["harness"], k["status"]))
